@@ -694,6 +694,24 @@ def _set_comparable(x, y):
     return kx is not None and ky is not None and ((kx == 'str') == (ky == 'str')) and (kx == ky or (kx in num and ky in num))
 
 
+def settle_set(it, recv):
+    """before the size or the members of a set with symbolic members are looked at: members equal in value are merged"""
+    if id(recv) not in it.path.lazysets:
+        return
+    del it.path.lazysets[id(recv)]
+    kept = []
+    for y in list(recv):
+        dup = False
+        for z in kept:
+            if (is_sym(y) or is_sym(z)) and _set_comparable(y, z) and it.branch(it.truth(it.compare(ast.Eq, y, z))):
+                dup = True
+                break
+        if not dup:
+            kept.append(y)
+    set.clear(recv)
+    set.update(recv, kept)
+
+
 def native_method(it, f, args, kwargs):
     recv = f.__self__
     name = f.__name__
@@ -706,18 +724,23 @@ def native_method(it, f, args, kwargs):
         return ReMatch(regex_matches(recv.pattern, name, args[0], recv.flags & ~_re.UNICODE))
     symarg = any(is_sym(a) or isinstance(a, SymObject) for a in args)
     if isinstance(recv, set) and name in ('add', 'discard', 'remove') and len(args) == 1 and (symarg or deep_has_sym(recv)):
-        # a set with symbolic members: one path per possible coincidence of the new member with a stored one (as dict_store)
+        # a set with symbolic members.  add() decides nothing: the new member is stored as it is and the set is marked as possibly holding
+        # members that are equal in value (membership tests do not care; len() and iteration settle the question first - settle_set).
+        # discard() / remove() take out every stored member equal to the argument, one path per possible coincidence (as dict_store).
         x = args[0]
+        if name == 'add':
+            if not any(y is x for y in recv):
+                set.add(recv, x)
+                it.path.lazysets[id(recv)] = recv
+            return None
+        found = False
         for y in list(recv):
             eq = True if y is x else (it.truth(it.compare(ast.Eq, y, x)) if (is_sym(x) or is_sym(y)) and _set_comparable(x, y)
                                       else ((not is_sym(x)) and (not is_sym(y)) and x == y))
             if it.branch(eq):
-                if name != 'add':
-                    set.discard(recv, y)
-                return None
-        if name == 'add':
-            set.add(recv, x)
-        elif name == 'remove':
+                set.discard(recv, y)
+                found = True
+        if name == 'remove' and not found:
             raise RaiseEx(KeyError(it.msg_arg(x)))
         return None
     if isinstance(recv, (list, tuple)):
@@ -826,6 +849,8 @@ def m_len(it, v):
         return Sym(z3.Length(v.t), 'int')
     if isinstance(v, SymSeq):
         return v.length(it)
+    if isinstance(v, set):
+        settle_set(it, v)
     f = lookup_special(v, '__len__') if not isinstance(v, (str, list, tuple, dict, set, frozenset)) else None
     if f is not None and is_repo_func(f):
         return it.call(f, [v], {})
@@ -1159,15 +1184,31 @@ def m_map(it, f, *xss):
     return [it.call(f, list(a), {}) for a in zip(*[it.iterate(xs) for xs in xss])]
 
 
+def lazy_items(it, xs):
+    """the items of an iterable one at a time: a generator object is advanced only as far as the consumer goes (any() / all() stop early,
+    and what the generator would have done or raised afterwards never happens)"""
+    from .interp import GenObject
+    if isinstance(xs, GenObject):
+        while True:
+            try:
+                yield xs.next()
+            except RaiseEx as ex:
+                if isinstance(ex.exc, StopIteration):
+                    return
+                raise
+    else:
+        yield from it.iterate(xs)
+
+
 def m_any(it, xs):
-    for x in it.iterate(xs):
+    for x in lazy_items(it, xs):
         if it.branch(it.truth(x)):
             return True
     return False
 
 
 def m_all(it, xs):
-    for x in it.iterate(xs):
+    for x in lazy_items(it, xs):
         if not it.branch(it.truth(x)):
             return False
     return True
@@ -1404,11 +1445,14 @@ def m_next(it, i, *d):
             if d and isinstance(ex.exc, StopIteration):
                 return d[0]
             raise
+    from .interp import EagerGen
     try:
-        return next(i)
+        return i.take() if isinstance(i, EagerGen) else next(i)
     except StopIteration as ex:
         if d:
             return d[0]
+        raise RaiseEx(ex)
+    except TypeError as ex:
         raise RaiseEx(ex)
 
 
